@@ -148,6 +148,10 @@ type Raft struct {
 	// A channel used to respond to membership change requests.
 	configurationResponseCh chan Result[Configuration]
 
+	// The log index of the configuration that the pending membership change request,
+	// if there is one, is waiting for.
+	configurationResponseIndex uint64
+
 	// Maps ID to the state of the other nodes in the cluster.
 	// Maintained by the leader.
 	followers map[string]*follower
@@ -611,6 +615,8 @@ func (r *Raft) AddServer(
 
 	// Add the configuration to the log.
 	r.appendConfiguration(&configuration)
+	r.configurationResponseCh = configurationFuture.responseCh
+	r.configurationResponseIndex = configuration.Index
 
 	r.configuration = &configuration
 	r.followers[id] = &follower{nextIndex: 1}
@@ -674,6 +680,8 @@ func (r *Raft) RemoveServer(id string, timeout time.Duration) Future[Configurati
 
 	// Add the configuration to the log.
 	r.appendConfiguration(&configuration)
+	r.configurationResponseCh = configurationFuture.responseCh
+	r.configurationResponseIndex = configuration.Index
 
 	r.sendAppendEntriesToPeers()
 
@@ -1773,8 +1781,14 @@ func (r *Raft) applyLoop() {
 			switch entry.EntryType {
 			case NoOpEntry:
 			case ConfigurationEntry:
+				// Respond to the membership change request that is waiting for this entry.
+				var responseCh chan Result[Configuration]
+				if entry.Index == r.configurationResponseIndex {
+					responseCh = r.configurationResponseCh
+					r.configurationResponseCh = nil
+				}
 				r.applyConfiguration(entry.Data)
-				respond(r.configurationResponseCh, *r.configuration, nil)
+				respond(responseCh, *r.configuration, nil)
 			case OperationEntry:
 				responseCh := r.operationManager.pendingReplicated[entry.Index]
 				delete(r.operationManager.pendingReplicated, entry.Index)
@@ -1924,6 +1938,8 @@ func (r *Raft) becomeFollower(leaderID string, term uint64) {
 	// Cancel any pending operations.
 	r.operationManager.notifyLostLeaderShip(r.id, r.leaderID)
 	r.operationManager = newOperationManager(r.options.leaseDuration)
+	respond(r.configurationResponseCh, Configuration{}, ErrNotLeader)
+	r.configurationResponseCh = nil
 
 	r.logger.Infof("entered the follower state: term = %d", r.currentTerm)
 }
@@ -1937,6 +1953,8 @@ func (r *Raft) stepdown() {
 	// Cancel any pending operations.
 	r.operationManager.notifyLostLeaderShip(r.id, r.leaderID)
 	r.operationManager = newOperationManager(r.options.leaseDuration)
+	respond(r.configurationResponseCh, Configuration{}, ErrNotLeader)
+	r.configurationResponseCh = nil
 
 	r.logger.Info("stepped down to the follower state")
 }
